@@ -22,6 +22,7 @@ type Timer struct {
 	period int64
 	fn     func()
 	live   bool
+	fired  bool
 	real   *time.Timer
 }
 
@@ -72,6 +73,7 @@ func fireDue() {
 		t := pending[0]
 		pending = pending[1:]
 		t.live = false
+		t.fired = true
 		if t.fn != nil {
 			t.fn() // AfterFunc: run by whoever moved the clock
 		} else {
